@@ -279,6 +279,71 @@ class SeqRunner:
         return rows, ctr, pc * self.listener.page_size
 
     # ------------------------------------------------------------ one step
+    # ------------------------------------------------------------ C18 lifecycle
+    def lifecycle(self, name, a):
+        import pickle as _p
+        dc = self.dc
+        if name == 'reopen':
+            self.cache.close()
+            if a.get('args'):
+                s = self.cfg
+                self.cache = dc.Cache(self.dir, timeout=1, eviction_policy=POLICY[s['policy']], cull_limit=s['cull'],
+                                      size_limit=s['limit'], statistics=s['stats'],
+                                      disk_min_file_size=s.get('min_file_size', 2 ** 15))
+            else:
+                self.cache = dc.Cache(self.dir, timeout=1)       # settings must come back from the directory
+            return R('none')
+        if name == 'pickle':
+            self.cache = _p.loads(_p.dumps(self.cache))
+            return R('none')
+        if name == 'settings':
+            c = dc.Cache(self.dir, timeout=1) if a.get('fresh') else self.cache
+            pol = {v: k for k, v in POLICY.items()}[c.eviction_policy]
+            r = R('settings', [{'lrs': 1, 'lru': 2, 'lfu': 3, 'none': 0}[pol], c.cull_limit, c.size_limit, 1 if c.statistics else 0])
+            if a.get('fresh'):
+                c.close()
+            return r
+        if name == 'via':
+            inner = a['inner']
+            how = a['how']
+            if how == 'thread':
+                import threading
+                box = []
+                t = threading.Thread(target=lambda: box.append(self.api.call(self.cache, inner['op'], inner['a'], 0)))
+                t.start(); t.join()
+                return box[0]
+            if how == 'fork':
+                import json as _j
+                r, w = os.pipe()
+                pid = os.fork()
+                if pid == 0:
+                    try:
+                        envctl.SeededUrandom.uninstall()      # the child must not replay the parent's file names
+                        out = self.api.call(self.cache, inner['op'], inner['a'], 0)
+                        os.write(w, _j.dumps(out).encode())
+                    finally:
+                        os._exit(0)
+                os.close(w)
+                data = b''
+                while True:
+                    ch = os.read(r, 65536)
+                    if not ch:
+                        break
+                    data += ch
+                os.close(r)
+                os.waitpid(pid, 0)
+                return _j.loads(data.decode())
+            if how == 'proc':
+                import json as _j, subprocess, sys
+                from . import VERIF
+                p = subprocess.run([sys.executable, '-m', 'harness.persist_worker', self.dir, str(self.clock.tick), _j.dumps(inner),
+                                    str(self.cfg.get('min_file_size', 2 ** 15))],
+                                   cwd=VERIF, stdout=subprocess.PIPE, stderr=subprocess.PIPE, text=True, timeout=120)
+                if p.returncode != 0:
+                    raise MachineryError('persist worker failed: ' + p.stderr[-800:])
+                return _j.loads(p.stdout.strip().splitlines()[-1])
+        raise MachineryError('unknown lifecycle op ' + name)
+
     def step(self, op):
         """op: dict with 'op' and abstract args (see CacheSeqTrace.Dispatch)."""
         name = op['op']
@@ -286,8 +351,15 @@ class SeqRunner:
         form = op.get('form', 0)
         self.listener.pages = []
         now = self.clock.tick
+        if name == 'reopen':
+            a['stats0'] = 1 if self.cfg['stats'] else 0
+        if name == 'via' and 'v' in a['inner']['a'] and a['inner']['op'] in ('set', 'add', 'push'):
+            a['inner'] = {'op': a['inner']['op'], 'a': dict(a['inner']['a'], sz=self.vm.size(a['inner']['a']['v']))}
         try:
-            ret = self.api.call(self.cache, name, a, form)
+            if name in ('reopen', 'pickle', 'settings', 'via'):
+                ret = self.lifecycle(name, a)
+            else:
+                ret = self.api.call(self.cache, name, a, form)
         except Exception as exc:           # anything else is reported by name
             ret = R(type(exc).__name__)
         rows, ctr, pbe = self.project()
